@@ -7,7 +7,7 @@ HERE="$(cd "$(dirname "$0")" && pwd)"
 [ -d "${VP_RUN_REPO:-}" ] || { echo "VP_RUN_REPO not set (use vp run --with-repo)"; exit 9; }
 cd "$HERE"
 for f in tools_manifest.py harness/apicheck/Cargo.toml harness/Cargo.toml harness/subjgen/src/main.rs harness/subject-rt/Cargo.toml \
-         harness/vgraph/src/c19p.rs harness/model/src/harvest.rs fuzz/Cargo.toml fuzz/build.rs refresh_evidence.sh check sweep.sh thorough_all.sh seeded/run_round.sh; do
+         harness/vgraph/src/c19p.rs harness/model/src/harvest.rs fuzz/Cargo.toml fuzz/build.rs refresh_evidence.sh check sweep.sh thorough_all.sh thorough_some.sh seeded/run_round.sh; do
   [ -f "$f" ] && sed -i "s#/repo\b#$VP_RUN_REPO#g; s#cd /verif#cd $HERE#g" "$f"
 done
 exec "$@"
